@@ -693,7 +693,7 @@ func runSeqOn(c *core.Ctx, cfg *SeqCfg, backend string, r *gen.Rng, transcript b
 			}
 			if cfg.IDSweep && !d.failed {
 				for _, name := range d.m.Names() {
-					for id := range d.ever[name] {
+					for _, id := range keys(d.ever[name]) {
 						if d.failed {
 							break
 						}
